@@ -6,3 +6,5 @@ CONSTANTS
   MaxP = 7
   Scripts <- CatQuick
 INVARIANTS NoErr InvReapOnce InvStatusTrue InvNoFgLeft InvJobsSound InvDenotation Emit
+\* the scripts of CatFgStopX are only listed (P3 runs them), not explored
+CONSTRAINT ModelChecked
